@@ -45,7 +45,10 @@ RULE = ("geometry: polygons with 3..12 vertices (integer grids up to 7x7 with "
         "save(append) / one file object, re-imported after clear_all_filters and "
         "into a registry with clashing ids; mutated .poly texts; chains of 1..3 copy(invert=0/1) "
         "from inverted/plain, constructed/loaded sources, then saved, re-imported and used as a "
-        "dataset polygon filter. non-trivial: "
+        "dataset polygon filter; query arrays of mixed dtypes (x int32/int64/uint8/int16 with "
+        "fractional float64 y and the reverse, float32 vs float64, equal dtypes), strided/column/"
+        "1-element layouts, tuples/lists/numpy scalars for point_in_poly, dataset polygons on "
+        "(index, deform) and (frame, area_um), judged on the given numbers. non-trivial: "
         "at least one point inside and one outside and off the boundary (geometry), "
         "at least one filter with >= 3 points (persistence); distinct = different case dict")
 TRUSTED_BASE = [
@@ -1037,6 +1040,168 @@ def render_copy(case, reg0):
 
 
 # --------------------------------------------------------------------------
+# query arrays of mixed dtypes / layouts; integer-typed dataset features
+# --------------------------------------------------------------------------
+DTYPE_COMBOS = [("int32", "float64"), ("int64", "float64"), ("uint8", "float64"),
+                ("int16", "float64"), ("float64", "int32"), ("float64", "int64"),
+                ("float32", "float64"), ("float32", "float64"), ("float64", "float32"),
+                ("float32", "float32"), ("int64", "int64"), ("float64", "float64")]
+
+
+def _repr_in(v, dt):
+    """the value of v stored in dtype dt, as an exact Python number"""
+    import numpy as np
+    a = np.array([v]).astype(dt)[0]
+    return int(a) if dt.startswith(("int", "uint")) else float(a)
+
+
+def gen_dtype_case(rng):
+    xdt, ydt = rng.choice(DTYPE_COMBOS)
+    isint = [xdt.startswith(("int", "uint")), ydt.startswith(("int", "uint"))]
+    n = rng.choice([3, 4, 4, 5, 6, 8])
+    sc = [1.0, 1.0]
+    for ax in (0, 1):
+        if not isint[ax]:
+            sc[ax] = 10.0 ** rng.randint(-3, 3)
+    poly = []
+    for _ in range(n):
+        v = []
+        for ax in (0, 1):
+            if isint[ax]:
+                v.append(float(rng.randint(0, 12)) + rng.choice([0.0, 0.0, 0.5]))
+            else:
+                v.append(sc[ax] * rng.uniform(-1, 1))
+        poly.append(v)
+    lo = [min(v[ax] for v in poly) for ax in (0, 1)]
+    hi = [max(v[ax] for v in poly) for ax in (0, 1)]
+    layout = rng.choice(["plain", "plain", "strided", "column", "single", "reversed"])
+    npts = 1 if layout == "single" else rng.randint(12, 30)
+    pts = []
+    for _ in range(npts):
+        r = rng.random()
+        p = [0.0, 0.0]
+        if r < .45 and not (isint[0] or isint[1]):
+            # next to an edge, at the resolution of float32
+            k = rng.randrange(n)
+            a, b = poly[k - 1], poly[k]
+            t = rng.random()
+            p = [a[0] + t * (b[0] - a[0]), a[1] + t * (b[1] - a[1])]
+            p[0] += rng.choice([-1, 1]) * abs(p[0]) * 10.0 ** rng.uniform(-8, -6)
+        else:
+            for ax in (0, 1):
+                if isint[ax]:
+                    p[ax] = rng.randint(max(0, int(lo[ax]) - 1), int(hi[ax]) + 1)
+                elif r < .6 and ax == 1:
+                    p[ax] = rng.choice(poly)[1]            # level with a vertex
+                else:
+                    p[ax] = lo[ax] + (hi[ax] - lo[ax]) * rng.uniform(-.1, 1.1)
+        pts.append([_repr_in(p[0], xdt), _repr_in(p[1], ydt)])
+    axes = None
+    if isint[0] and not isint[1] and rng.random() < .6 and layout != "single":
+        axes = rng.choice([["index", "deform"], ["frame", "area_um"]])
+        if axes[0] == "index":       # the dataset's own index: 1..N
+            for k, p in enumerate(pts):
+                p[0] = k + 1
+            w = max(1, len(pts))
+            poly = [[float(rng.randint(0, w + 1)) + rng.choice([0.0, 0.5]), v[1]] for v in poly]
+    return dict(kind="dtype", poly=poly, pts=pts, xdt=xdt, ydt=ydt, layout=layout,
+                inv=rng.choice([0, 0, 1]), axes=axes, reload=rng.choice([0, 0, 1]))
+
+
+def _layout(vals, dt, layout):
+    import numpy as np
+    a = np.array(vals, dtype=dt)
+    if layout == "strided":
+        big = np.zeros(2 * len(a) + 1, dtype=dt)
+        big[1::2] = a
+        return big[1::2]
+    if layout == "column":
+        m = np.zeros((len(a), 3), dtype=dt)
+        m[:, 1] = a
+        return m[:, 1]
+    if layout == "reversed":
+        return a[::-1][::-1] if len(a) < 2 else np.ascontiguousarray(a[::-1])[::-1]
+    return a
+
+
+def check_dtype_impl(case, scratch, rng):
+    """the exact oracle judges the ORIGINAL numbers; no dtype may change the result"""
+    import warnings
+    import numpy as np
+    import dclab
+    from dclab.polygon_filter import PolygonFilter
+    poly, pts, inv = case["poly"], case["pts"], case["inv"]
+    judge = exact_judgement(poly, [[float(p[0]), float(p[1])] for p in pts], rng)
+    xa = _layout([p[0] for p in pts], case["xdt"], case["layout"])
+    ya = _layout([p[1] for p in pts], case["ydt"], case["layout"])
+    path = os.path.join(scratch, "dtype_%d.poly" % os.getpid())
+
+    def verdict(got, inv_, what):
+        for k, (j, b) in enumerate(zip(judge, got)):
+            if j["bnd"] or j["near"]:
+                continue
+            if int(b) != (j["inside"] ^ inv_):
+                return ("%s with x %s / y %s (%s): point %r classified %d, the even-odd rule "
+                        "on the given numbers says %d" % (what, case["xdt"], case["ydt"],
+                                                          case["layout"], pts[k], int(b),
+                                                          j["inside"] ^ inv_))
+        return None
+    PolygonFilter.clear_all_filters()
+    try:
+        axes = tuple(case["axes"] or ("area_um", "deform"))
+        pf = PolygonFilter(axes=axes, points=np.array(poly, dtype=float), inverted=bool(inv))
+        res = pf.filter(xa, ya)
+        fail = verdict(res, inv, "filter()")
+        if fail is None and len(res) != len(pts):
+            fail = "filter() returned %d values for %d points" % (len(res), len(pts))
+        if fail is None:
+            other = pf.copy(invert=True).filter(xa, ya)
+            if (other == res).any():
+                fail = "inverted copy is not the complement for x %s / y %s" % (case["xdt"], case["ydt"])
+        if fail is None:
+            for k in range(min(2, len(pts))):
+                for p in (tuple(pts[k]), list(pts[k]), (xa[k], ya[k])):
+                    b = PolygonFilter.point_in_poly(p, [list(v) for v in poly])
+                    f1 = verdict([b if i == k else (judge[i]["inside"] or 0) for i in range(len(pts))],
+                                 0, "point_in_poly(%r)" % (p,))
+                    if f1 and fail is None:
+                        fail = f1
+        if fail is None and case.get("reload"):
+            pf.save(path)
+            PolygonFilter.clear_all_filters()
+            with warnings.catch_warnings():
+                warnings.simplefilter("ignore")
+                pf2 = PolygonFilter.import_all(path)[0]
+            fail = verdict(pf2.filter(xa, ya), inv, "filter() of the re-imported filter")
+            pf = pf2
+        if fail is None and case["axes"]:
+            with warnings.catch_warnings():
+                warnings.simplefilter("ignore")
+                data = {axes[1]: np.array(ya, dtype=float)}
+                if axes[0] != "index":
+                    data[axes[0]] = np.array(xa)
+                else:
+                    data["area_um"] = np.ones(len(pts))
+                ds = dclab.new_dataset(data)
+                if [int(v) for v in ds[axes[0]][:]] != [int(p[0]) for p in pts]:
+                    fail = "dataset feature %s does not hold the given values" % axes[0]
+                else:
+                    ds.polygon_filter_add(pf)
+                    ds.apply_filter()
+                    fail = verdict(ds.filter.polygon, inv,
+                                   "dataset polygon filter on (%s [%s], %s)" % (
+                                       axes[0], ds[axes[0]].dtype, axes[1]))
+                    if fail is None and list(ds.filter.all) != list(ds.filter.polygon):
+                        fail = "ds.filter.all differs from ds.filter.polygon"
+        ins = [j["inside"] for j in judge if not j["bnd"] and not j["near"]]
+        return fail, (0 in ins) or (1 in ins)
+    finally:
+        PolygonFilter.clear_all_filters()
+        if os.path.exists(path):
+            os.remove(path)
+
+
+# --------------------------------------------------------------------------
 # number-format oracle hypotheses, checked directly
 # --------------------------------------------------------------------------
 def check_format_hypotheses(run, rng):
@@ -1200,6 +1365,21 @@ def run(run):
             run.mismatch(c, mi, enc, what="import_all of a mutated file")
 
 
+    # ---------------- mixed dtypes / layouts of the query arrays ----------------
+    ndt = 1500 if run.thorough else 160
+    dts = [c for c in corpus if c.get("kind") == "dtype"]
+    while len(dts) < ndt:
+        dts.append(gen_dtype_case(rng))
+    for c in dts:
+        fail, nontrivial = check_dtype_impl(c, run.scratch, rng)
+        run.record_case(c, nontrivial, sample=False)
+        run.count("dtype:%s/%s" % (c["xdt"], c["ydt"]))
+        run.count("layout:" + c["layout"])
+        if c["axes"]:
+            run.count("dataset:%s,%s" % tuple(c["axes"]))
+        if fail is not None:
+            run.oracle_failure(c, fail, None)
+
     # ---------------- copy(invert) chains ----------------
     ncp = 600 if run.thorough else 70
     cps = [c for c in corpus if c.get("kind") == "copy"]
@@ -1282,6 +1462,11 @@ def search(run, broken):
         r = check_geom_impl(c, rng, None)
         if r["fail"] is not None:
             return shrink(run, dict(case=c, desc=r["fail"]))
+    for _ in range(5000 if run.thorough else 1000):
+        c = gen_dtype_case(rng)
+        fail, _nt = check_dtype_impl(c, run.scratch, rng)
+        if fail is not None:
+            return dict(case=c, desc=fail)
     for _ in range(3000 if run.thorough else 600):
         c = gen_copy_case(rng)
         fail, _ob = check_copy_impl(c, run.scratch, rng)
@@ -1316,6 +1501,13 @@ def replay(payload):
         return 0
     scratch = tempfile.mkdtemp(prefix="verif-c15-replay-", dir=os.environ.get("VERIF_SCRATCH", "/var/tmp"))
     try:
+        if case["kind"] == "dtype":
+            fail, _nt = check_dtype_impl(case, scratch, random.Random(0))
+            if fail:
+                print("FAILS:", fail)
+                return 1
+            print("passes on the current tree")
+            return 0
         if case["kind"] == "copy":
             fail, ob = check_copy_impl(case, scratch, random.Random(0))
             print("copies (id, inverted):", ob[1])
